@@ -334,14 +334,13 @@ func (u *Universe) structOf(t types.Type) *structInfo {
 	if !ok {
 		panic("structOf: not a struct: " + t.String())
 	}
-	key := typeKey(t)
-	if _, named := t.(*types.Named); !named {
-		key = typeKey(st)
-	}
+	// one SMT datatype per underlying struct type: named types with the same
+	// underlying struct are convertible and share the value representation
+	key := typeKey(st)
 	if si, ok := u.structs[key]; ok {
 		return si
 	}
-	short := key
+	short := typeKey(t)
 	if i := strings.LastIndex(short, "/"); i >= 0 && !strings.Contains(short, "{") {
 		short = short[i+1:]
 	}
